@@ -64,12 +64,15 @@ Fixpoint redef_targets (ks : items) : list id :=
   | ICons x xs => match item_redef x with Some t => t :: redef_targets xs | None => redef_targets xs end
   end.
 
-(* the union an entry belongs to: a redefiner names it; the redefined item is marked by structure() *)
+(* the union an entry belongs to = clauses[redefines] of the finished node.  structure() OVERWRITES the clause of
+   every item that a later sibling names in a REDEFINES with the item's own name (matches.clauses[redefines] =
+   node.clauses[redefines]), whether or not the item carried a REDEFINES of its own: a redefined item heads the union
+   named after itself, also when it is itself a redefiner (05 B REDEFINES A ... 05 C REDEFINES B: B and C are filed
+   under REDEFINES-B, a NEW oneOf placed where B is declared, i.e. after REDEFINES-A; finding K-redefines-of-redefiner).
+   Any other redefiner belongs to the union it names.  Where no redefined item is itself a redefiner (unions_ok,
+   Spec/LayoutWf.v) this is: a redefiner names its union, the redefined item is marked (Proofs/LayoutP.v union_of_unf). *)
 Definition union_of (targets : list id) (x : item) : option id :=
-  match item_redef x with
-  | Some t => Some t
-  | None => if existsb (N.eqb (item_id x)) targets then Some (item_id x) else None
-  end.
+  if existsb (N.eqb (item_id x)) targets then Some (item_id x) else item_redef x.
 
 Definition elem_items (i : id) (sz : nat) : js :=
   JObj None (PCons (KName i) (JAtom (Some (KName i)) sz) PNil).
